@@ -4,6 +4,7 @@ CONSTANTS
   TextSyms = {"a", "b"}
   MaxP = 6
   MaxT = 8
+  MaxL = 2
   Dev = {}
 INIT GenInit
 NEXT GenNext
